@@ -46,20 +46,34 @@ def c02_1(cx):
 def c02_2(cx):
     """report_tracked_write(d): assert d != NEVER_CHANGE dominates the write; fills a range covering [1, d.index()] of self.revisions with current_revision()."""
     b = cx.fn(RT + r"report_tracked_write$")
-    fill = cx.one_call(b, r"^core::slice::<impl \[T\]>::fill$", "slice::fill call in report_tracked_write")
-    args = [b.origin_op(a) for a in fill.node()["args"]]
+    never = Cmp(r"^\$2$", "!=", NEVER, desc="durability != NEVER_CHANGE")
+    fills = b.calls(r"^core::slice::<impl \[T\]>::fill$")
+    direct = [x for x in cx.stores(b) if x[1].startswith("$1.revisions")]
+    if not fills:
+        # no slice fill: a direct store into one slot is a positively smaller write than [1, d]
+        cx.require(direct, "report_tracked_write neither fills a range nor stores into revisions")
+        for s, po, vo in direct:
+            single = re.search(r"^\$1\.revisions\[(durability::Durability::index\(\$2\)|const:\d+|.*min\(.*\))\]$", po) is not None
+            cx.check(not single, "report_tracked_write must stamp every slot in [1, d.index()], not a single slot", s, {"store": po}, key="single-slot-store")
+            cx.only_if(b, s, never, "the write is reached only if durability != NEVER_CHANGE")
+        loops = b.back_edges()
+        cx.require(bool(loops) or all(re.search(r"\[const:", x[1]) for x in direct), "report_tracked_write: unrecognised write shape")
+        return
+    fill = cx.one(fills, "slice::fill call in report_tracked_write")
+    cx.only_if(b, fill, never, "the write is reached only if durability != NEVER_CHANGE")
+    args = [b.origin_op(a, 0, None, fill) for a in fill.node()["args"]]
     cx.flow(b, args[0],
             accept=[r"^\$1\.revisions\[std::ops::RangeInclusive::<Idx>::new\(const:1, durability::Durability::index\(\$2\)\)\]$",
                     r"^\$1\.revisions\[RangeFrom\{start: const:1\}\]$", r"^\$1\.revisions\[RangeFull", r"^\$1\.revisions$"],
             refute=[r"^\$1\.revisions\[Range\{start: const:\d+, end: durability::Durability::index\(\$2\)\}\]$",
                     r"^\$1\.revisions\[std::ops::RangeInclusive::<Idx>::new\(const:([2-9]|\d\d+), ",
                     r"^\$1\.revisions\[RangeFrom\{start: const:([2-9]|\d\d+)\}\]$",
-                    r"^\$1\.revisions\[RangeTo\{end: durability::Durability::index\(\$2\)\}\]$"],
+                    r"^\$1\.revisions\[RangeTo\{end: durability::Durability::index\(\$2\)\}\]$",
+                    r"^\$1\.revisions\[std::ops::RangeInclusive::<Idx>::new\(durability::Durability::index\(\$2\), durability::Durability::index\(\$2\)\)\]$"],
             what="filled range covers revisions[1..=d.index()]", site=fill)
     cx.flow(b, args[1], accept=[r"^runtime::Runtime::current_revision\(\$1\)$", r"^\$1\.revisions\[const:0\]$"],
             refute=[r"^const:", r"revision::Revision::start", r"\.next\(", r"^\$1\.revisions\[const:[1-9]"],
             what="fill value is the current revision", site=fill)
-    cx.only_if(b, fill, Cmp(r"^\$2$", "!=", NEVER), "the write is reached only if durability != NEVER_CHANGE")
 
 
 @ob("C02.3", ["C02", "C01"], "reporting the new instead of the old durability misses HIGH->LOW writes: memos of durability HIGH that read the field stay shallow-valid", kind="FLOW+ORDER+ONLYIF")
